@@ -17,6 +17,8 @@
 From Coq Require Import NArith ZArith List Bool Permutation.
 From V Require Import Base.UString Model.Store Model.StoreRun Spec.StoreSpec
   Proofs.StoreBase Proofs.StoreMem Proofs.StoreFs Proofs.StoreAgree Proofs.StoreComposite Proofs.StoreNav.
+From V Require Model.Filters Proofs.FiltersBasics Proofs.StoreFilters.
+From V Require Import Model.Factory Proofs.FactoryFacts.
 Import ListNotations.
 Open Scope list_scope.
 
@@ -109,6 +111,27 @@ Theorem cquery_memory_members : forall mode iot (afs : list (list sfilter * list
                  exists o', In o' res /\ dkey_of o' = dkey_of o).
 Proof. exact cquery_distinct_once_mem. Qed.
 Print Assumptions cquery_memory_members.
+
+(* the same with the real filter semantics of property C12 (StoreFilters.cf: concrete filter -> model filter, verdict
+   = Filter._check_filter on the dictionary view of the object; holds_b = verdict of a whole filter list) *)
+Theorem cquery_real_filters : forall (tsm : Filters.ts_mode) (view : obj -> Filters.pv) mode iot
+    (afs : list (list Filters.flt * list obj)) (af q : list Filters.flt),
+  afs <> [] ->
+  (forall p o, In p afs -> In o (mem_objs (mem_run mode iot (snd p))) -> StoreFilters.viewed tsm view o) ->
+  exists res,
+    cquery (map (StoreFilters.cf tsm view) af)
+           (map (fun p => mem_source (map (StoreFilters.cf tsm view) (fst p)) (mem_run mode iot (snd p))) afs) []
+           (map (StoreFilters.cf tsm view) q) = Ok res /\
+    NoDup (map dkey_of res) /\
+    (forall o, In o res -> exists p, In p afs /\ In o (mem_objs (mem_run mode iot (snd p))) /\
+        FiltersBasics.holds_b tsm q (view o) = true /\ FiltersBasics.holds_b tsm (fst p) (view o) = true /\
+        FiltersBasics.holds_b tsm af (view o) = true) /\
+    (forall p o, In p afs -> In o (mem_objs (mem_run mode iot (snd p))) ->
+        FiltersBasics.holds_b tsm q (view o) = true -> FiltersBasics.holds_b tsm (fst p) (view o) = true ->
+        FiltersBasics.holds_b tsm af (view o) = true ->
+        exists o', In o' res /\ dkey_of o' = dkey_of o).
+Proof. exact StoreFilters.cquery_concrete. Qed.
+Print Assumptions cquery_real_filters.
 
 (* ---- attached filters ---- *)
 
@@ -239,6 +262,39 @@ Theorem related_federated_is_union_scan : forall (ms : list source) (Ps : list (
     forall o, In o res <-> In o U /\ all_hold fl o = true /\ neighbour (rel_scan U a rt so to) a (oid o).
 Proof. exact (related_federated_union (fun _ => None)). Qed.
 Print Assumptions related_federated_is_union_scan.
+
+(* ---- the default-property factory behind Environment.create (Model/Factory.v, tied to
+        stix2/environment.py:ObjectFactory by the correspondence run) ---- *)
+
+(* a property that is not passed keeps its default *)
+Theorem factory_default_applies : forall la (defaults kw : fdict) k, NoDup (map fst kw) ->
+  dict_get ustr_eqb kw k = None -> dict_get ustr_eqb (create la defaults kw) k = dict_get ustr_eqb defaults k.
+Proof. exact create_default. Qed.
+Print Assumptions factory_default_applies.
+
+(* an explicit argument wins (properties other than the two list properties, or any with list_append off) *)
+Theorem factory_explicit_wins : forall la (defaults kw : fdict) k v, NoDup (map fst kw) ->
+  is_list_prop k = false -> dict_get ustr_eqb kw k = Some v -> dict_get ustr_eqb (create la defaults kw) k = Some v.
+Proof. exact create_explicit. Qed.
+Print Assumptions factory_explicit_wins.
+
+Theorem factory_replace_without_append : forall (defaults kw : fdict) k v, NoDup (map fst kw) ->
+  dict_get ustr_eqb kw k = Some v -> dict_get ustr_eqb (create false defaults kw) k = Some v.
+Proof. exact create_replace. Qed.
+Print Assumptions factory_replace_without_append.
+
+(* list_append: the passed value is appended to the default; None removes the default; no default: as passed *)
+Theorem factory_list_append : forall (defaults kw : fdict) k kv, NoDup (map fst kw) ->
+  is_list_prop k = true -> dict_get ustr_eqb kw k = Some kv ->
+  dict_get ustr_eqb (create true defaults kw) k = merged (dict_get ustr_eqb defaults k) kv.
+Proof. exact create_list_append. Qed.
+Print Assumptions factory_list_append.
+
+Theorem factory_created_is_modified : forall d v,
+  dict_get ustr_eqb (set_default_created d v) k_created = Some v /\
+  dict_get ustr_eqb (set_default_created d v) k_modified = Some v.
+Proof. exact default_created_is_modified. Qed.
+Print Assumptions factory_created_is_modified.
 
 (* ---- hypotheses are satisfiable ---- *)
 Example scan_member_inhabited : forall m : mem, scan_member (mem_source [] m) (mem_objs m).
